@@ -99,7 +99,18 @@ def t_funcs(task):
     precs = (20, 53) + ((100, 10) if th else ())
     try:
         for name in names:
-            for e in table[name]:
+            entries = list(table[name])
+            # one-argument functions are also called at small integer arguments (exact-integer fast paths, value caches)
+            def toplevel_commas(a):
+                d = n = 0
+                for ch in a:
+                    d += ch in '([{'; d -= ch in ')]}'
+                    n += (ch == ',' and d == 1)
+                return n
+            if entries and all(toplevel_commas(e['args']) == 0 and 'lambda' not in e['args'] for e in entries) and max(e['ms'] for e in entries) < 100:
+                have = set(e['args'] for e in entries)
+                entries += [{'args': a, 'ms': 1, 'ret': 'mpf'} for a in ('(3)', '(5)', '(2)', '(-3)', '(7)') if a not in have]
+            for e in entries:
                 if 'lambda' in e['args'] and name not in ('quad', 'quadgl', 'quadts', 'diff', 'nsum', 'nprod', 'limit', 'findroot', 'invertlaplace', 'sumem'):
                     continue
                 for p in precs:
@@ -124,6 +135,21 @@ def t_funcs(task):
                         if bad:
                             acc.violation(['fn', name, e['args'], p, str(kw)], '%s%s at prec %d%s returned a %d-bit mantissa (limit %d)' % (name, e['args'], p, '' if kw is None else ' with %s' % kw, max(c[3] for c in bad), limit),
                                           fn=name, kind='fn', kw=bool(kw), args=e['args'])
+                        elif kw is None and e.get('ms', 0) < 200:
+                            # the same call again in the same process: results served from a cache must be rounded as well
+                            try:
+                                r2 = call_long(mp, ns, name, e['args'], p, None)
+                            except BaseException:
+                                mp.prec = 53; continue
+                            finally:
+                                mp.prec = 53
+                            comps2 = []
+                            components(mp, r2, comps2)
+                            acc.evals += 1
+                            bad2 = [c for c in comps2 if c[1] and c[3] > limit]
+                            if bad2:
+                                acc.violation(['fn-repeat', name, e['args'], p], '%s%s at prec %d returned a %d-bit mantissa when called a second time (limit %d)' % (name, e['args'], p, max(c[3] for c in bad2), limit),
+                                              fn=name, kind='fn-repeat', kw=False, args=e['args'])
         if names:
             acc.sample([names[0], table[names[0]][0]['args'], 20])
     finally:
